@@ -68,3 +68,16 @@ Theorem deep_recursion_outcome : forall top n len,
   (ensure_stack true top n len = OutOfStack <-> top + n >= MAX_STACK_SIZE)%Z.
 Proof. exact Proofs.out_of_stack_iff. Qed.
 Print Assumptions deep_recursion_outcome.
+
+(** non-tail recursion of any depth k (one stack check per pending call, at tops top, top+per, ...,
+    each asking for n more slots, the stack length threaded through): the out-of-stack error comes
+    exactly when the deepest check does not fit below SEXP_MAX_STACK_SIZE; every shallower depth
+    succeeds with a stack grown to hold it (never shrunk, never above the maximum) *)
+Theorem deep_recursion_by_depth : forall k top per n len,
+  (0 < per <= n)%Z -> (0 <= top < len)%Z -> (len <= MAX_STACK_SIZE)%Z ->
+  (deep_calls k top per n len = OutOfStack <->
+   0 < k /\ (top + (Z.of_nat k - 1) * per + n >= MAX_STACK_SIZE)%Z) /\
+  (forall len', deep_calls k top per n len = Enough len' ->
+     (len <= len' <= MAX_STACK_SIZE)%Z /\ (0 < k -> (top + (Z.of_nat k - 1) * per + n < len')%Z)).
+Proof. exact Proofs.deep_calls_outcome. Qed.
+Print Assumptions deep_recursion_by_depth.
